@@ -227,6 +227,12 @@ func (r *Report) finish(meta runMeta) int {
 	}
 	sort.Strings(funcs)
 	wall := time.Since(meta.Start).Seconds()
+	if meta.Assumptions == nil {
+		meta.Assumptions = []string{}
+	}
+	if r.Info == nil {
+		r.Info = []string{}
+	}
 	cov := map[string]any{
 		"explanation":        meta.Explanation,
 		"obligations":        len(r.Obls),
